@@ -801,44 +801,89 @@ def codec_rules(ctx, prog):
                 pushed = pushes[0][1]["args"][1]
                 pd = emit.unique_def(op_local(pushed)) if op_local(pushed) is not None else None
                 len_src = None
+                cons_atoms = {}
                 if pd and pd[2] == "assign" and pd[3]["rv"]["k"] == "aggr" and len(pd[3]["rv"]["ops"]) == 2:
                     len_src = _root_local(emit, pd[3]["rv"]["ops"][1])
-                end_l = lin_eval(emit, rng_aggr["rv"]["ops"][1], {len_src: Lin(0, 1, 0)} if len_src is not None else {})
+                    cons_atoms = {len_src: Lin(0, 1, 0)} if len_src is not None else {}
+                else:
+                    # the group is pushed as one value (a private struct): its count component is what must drive the pops
+                    groot = _root_local(emit, pushed)
+                    if groot is not None:
+                        cons_atoms, _g = _group_atoms(emit, lambda pl, _r=groot: pl["p"] if pl["l"] == _r else None)
+                end_l = lin_eval(emit, rng_aggr["rv"]["ops"][1], cons_atoms)
                 ok = bool(c0 and c0.get("val") == 0) and end_l is not None and (end_l.s, end_l.l, end_l.c) == (0, 1, 0)
                 det += f"; pops per group = 0..{end_l}"
     ctx.ob("R8.codec", "emit-consumes-exactly-the-group", ok, emit.loc(), det)
     # ---- linear forms: no intermediate above the range end
     n_forms = 0
     # rendering loop: atoms are the two components of the group tuple read from the iterator item
-    atoms = {}
-    for blk in emit.blocks:
-        for s in blk.stmts:
-            if s["k"] == "assign" and s["rv"]["k"] == "use":
-                pl = op_place(s["rv"]["op"])
-                if pl and any(isinstance(e, dict) and e.get("v") == "Some" for e in pl["p"]):
-                    idx = [e["i"] for e in pl["p"] if isinstance(e, dict) and "i" in e]
-                    if idx and idx[-1] in (0, 1) and "NonZero" in emit.local_ty(s["place"]["l"])["s"] + "" and idx[-1] == 1:
-                        atoms[s["place"]["l"]] = Lin(0, 1, 0)
-                    elif idx and idx[-1] == 0 and emit.local_ty(s["place"]["l"])["s"] == "u32":
-                        atoms[s["place"]["l"]] = Lin(1, 0, 0)
+    atoms, _g = _group_atoms(emit, _some_payload_seed(None))
     n_forms += _check_forms(ctx, emit, atoms, bound="last", where="render")
     for c in prog.closures_of(emit):
         ctx.fn(c)
-        atoms = {}
-        for blk in c.blocks:
-            for s in blk.stmts:
-                if s["k"] == "assign" and s["rv"]["k"] == "use":
-                    pl = op_place(s["rv"]["op"])
-                    if pl and pl["l"] == 2 and any(isinstance(e, dict) and e.get("v") == "Some" for e in pl["p"]):
-                        idx = [e["i"] for e in pl["p"] if isinstance(e, dict) and "i" in e]
-                        if idx and idx[-1] == 1:
-                            atoms[s["place"]["l"]] = Lin(0, 1, 0)
-                        elif idx and idx[-1] == 0:
-                            atoms[s["place"]["l"]] = Lin(1, 0, 0)
+        atoms, _g = _group_atoms(c, _some_payload_seed({2}))
         if atoms:
             n_forms += _check_forms(ctx, c, atoms, bound="next", where="group")
     if n_forms < 3:
         ctx.missing("R8.range-arithmetic", f"at least 3 panicking checked additions over (start, len) in emit (found {n_forms})")
+
+
+def _group_atoms(body, seed):
+    """Locals holding the start id / the length of a group. A group is a two-component value (tuple or private struct) of an id
+    and a NonZero count; `seed(place)` returns the projections that remain after a place known to hold a whole group
+    (None when the place is not rooted in one). Components are told apart by their type, whole groups are followed through
+    copies (also the argument copies of spliced-in helper methods)."""
+    G = set()
+    atoms = {}
+
+    def rest_of(pl):
+        if pl["l"] in G:
+            return pl["p"]
+        return seed(pl)
+
+    changed = True
+    while changed:
+        changed = False
+        for blk in body.blocks:
+            for s in blk.stmts:
+                if s["k"] != "assign" or s["rv"]["k"] != "use" or s["place"]["p"]:
+                    continue
+                pl = op_place(s["rv"]["op"])
+                dst = s["place"]["l"]
+                if pl is None or dst in G or dst in atoms:
+                    continue
+                rest = rest_of(pl)
+                if rest is None:
+                    continue
+                rest = [e for e in rest if isinstance(e, dict) and "i" in e and "v" not in e]
+                ty = body.local_ty(dst)["s"]
+                if not rest:
+                    if ty not in ("u32",) and "NonZero" not in ty.split("<")[0]:
+                        G.add(dst)
+                        changed = True
+                elif len(rest) == 1:
+                    if ty == "u32":
+                        atoms[dst] = Lin(1, 0, 0)
+                        changed = True
+                    elif "NonZero" in ty:
+                        atoms[dst] = Lin(0, 1, 0)
+                        changed = True
+    return atoms, G
+
+
+def _some_payload_seed(root_locals):
+    """seed for _group_atoms: `(<root> as Some).0` holds a whole group."""
+    def seed(pl):
+        if root_locals is not None and pl["l"] not in root_locals:
+            return None
+        for k, e in enumerate(pl["p"]):
+            if isinstance(e, dict) and e.get("v") == "Some":
+                nxt = pl["p"][k + 1:]
+                if nxt and isinstance(nxt[0], dict) and nxt[0].get("i") == 0:
+                    return nxt[1:]
+                return None
+        return None
+    return seed
 
 
 def _root_local(body, op, depth=6):
@@ -989,6 +1034,24 @@ def mask_rules(ctx, prog):
         if ok:
             cbs = closure_bodies_of_call(prog, e, alls[0][1])
             ok = len(cbs) == 1 and [t["callee"].get("method") for _b, t in cbs[0].calls()].count("word") == 2
+    if ok:
+        # ... and nothing else decides the answer: every value that reaches the return place is that `all(..)` (no width-dependent
+        # shortcut such as comparing the word vectors wholesale, which makes a 1-word and a 2-word mask of the same set differ)
+        others = []
+        for blk in e.blocks:
+            if blk.cleanup:
+                continue
+            for st in blk.stmts:
+                if st["k"] == "assign" and st["place"]["l"] == 0 and not st["place"]["p"]:
+                    sl0 = Slice(e, through_calls=False).run(st["rv"]["op"]) if st["rv"]["k"] == "use" else None
+                    if sl0 is None or not any(ct is alls[0][1] for _k, _b, ct in sl0["calls"]):
+                        others.append(e.loc(st["span"]))
+            t = blk.term
+            if t["k"] == "call" and isinstance(t.get("dest"), dict) and t["dest"]["l"] == 0 and not t["dest"]["p"] and t is not alls[0][1]:
+                others.append(f"{callee_key(t['callee']).split('::')[-1]}@{e.loc(t['span'])}")
+        ok = not others
+        if others:
+            ctx.ob("R9.mask", "equality-has-no-width-dependent-shortcut", False, e.loc(), f"eq also returns values not produced by the padded word-by-word comparison: {others}")
     uw = calls_named(word, "unwrap_or", "unwrap_or_default")
     okw = len(uw) == 1 and not [1 for _b, t in word.calls() if last(callee_key(t["callee"]), 2) in PANICKING]
     ctx.ob("R9.mask", "equality-pads-the-narrower-mask", ok and okw, e.loc(), "eq compares word(i) for i in 0..max(widths); word(i) beyond the width reads as empty")
